@@ -110,6 +110,7 @@ class Repo:
         self.classes = {}         # name -> [ClassInfo]
         self._by_qual = {}
         self.parse_errors = []
+        self.inlined = []
         self._load()
 
     # ------------------------------------------------------------------ load
@@ -120,6 +121,7 @@ class Repo:
         files = sorted(pkg.rglob('*.py'))
         rels = {str(p.relative_to(self.root)) for p in files}
         rels |= set(self.overlay)
+        parsed = []
         for rel in sorted(rels):
             if rel in self.overlay:
                 src = self.overlay[rel]
@@ -132,10 +134,19 @@ class Repo:
                 tree = ast.parse(src, filename=rel)
             except SyntaxError as e:
                 raise AnalysisError('cannot parse %s: %s' % (rel, e))
-            set_parents(tree)
             modname = rel[:-3].replace('/', '.')
             if modname.endswith('.__init__'):
                 modname = modname[:-len('.__init__')]
+            parsed.append((modname, rel, src, tree))
+        # normalisation: new private helpers are inlined into their callers
+        from .normalize import inline_new_helpers
+        try:
+            self.inlined = inline_new_helpers(
+                {m: t for m, _r, _s, t in parsed})
+        except RuntimeError as e:
+            raise AnalysisError(str(e))
+        for modname, rel, src, tree in parsed:
+            set_parents(tree)
             mod = ModuleInfo(modname, rel, src, tree)
             self.modules[modname] = mod
             self._index_module(mod)
@@ -302,6 +313,7 @@ class Repo:
             'functions': len(self.functions),
             'classes': sum(len(v) for v in self.classes.values()),
             'overlay': sorted(self.overlay),
+            'inlined_helpers': list(self.inlined),
         }
 
 
